@@ -102,9 +102,20 @@ class RichGen:
     def func(self):
         r = self.r
         fname = "f" + next(self.names)
-        params = [("Signal", next(self.names))]
+        # a parameter may carry the name of a value of the caller (it shadows it inside the body): arguments
+        # that mention that outer name must still mean the caller's value
+        outer = [n for n, k_, _ in self.scope if k_ == "sig"]
+        def pname():
+            if outer and r.random() < 0.35:
+                return r.choice(outer)
+            return next(self.names)
+        first = pname()
+        params = [("Signal", first)]
         if r.random() < 0.6:
-            params.append((r.choice(["int", "Signal"]), next(self.names)))
+            second = pname()
+            if second == first:
+                second = next(self.names)
+            params.append((r.choice(["int", "Signal"]), second))
         saved = self.scope
         self.scope = [(n, "int" if k == "int" else "sig", 0 if k == "int" else None) for k, n in params]
         body = []
